@@ -65,8 +65,9 @@ def run(case):
     if case["op"] == "space_erase":
         def f():
             t = core.mk_tier(case["tier"], sc)
-            t1 = t.insertSpace(sc.f(a["s"]), sc.f(a["d"]), a["mode"])
-            t2 = t1.eraseRegion(sc.f(a["s"]), sc.f(a["s"]) + sc.f(a["d"]), "truncate", True)
+            # option values as a caller has them at run time (read from a file, computed): equal strings, not the literals
+            t1 = t.insertSpace(sc.f(a["s"]), sc.f(a["d"]), tierops._fresh(a["mode"]) if a["d"] % 2 else a["mode"])
+            t2 = t1.eraseRegion(sc.f(a["s"]), sc.f(a["s"]) + sc.f(a["d"]), tierops._fresh("truncate") if a["s"] % 2 else "truncate", True)
             return core.snap_tier(t2, sc)
         return core.run_guarded(f)
     from praatio.data_classes.textgrid import Textgrid
